@@ -69,9 +69,9 @@ Proof.
   destruct (ipaddr ip) as [x|]; [|reflexivity].
   induction dn as [|n dn IH]; cbn [existsb].
   - destruct al as [|a al]; [reflexivity|].
-    cbv match. generalize (a :: al) as l. intro l.
-    induction l as [|m l IHl]; cbn [existsb]; [reflexivity|].
-    destruct (contains m x); [reflexivity|exact IHl].
+    cbn [existsb]. revert a.
+    induction al as [|m al IHl]; intro a; cbn [existsb];
+      (destruct (contains a x); cbn [orb]; [reflexivity|]); [reflexivity|apply IHl].
   - destruct (contains n x); [reflexivity|exact IH].
 Qed.
 
@@ -118,10 +118,9 @@ Lemma canonical_segments_clamp_tie : forall (unq : str -> str) path,
   gen_canonical_path_segments unq path true = Ok (canon_segs (comps (unq path)) []).
 Proof.
   intros. unfold gen_canonical_path_segments, comps. cbv zeta.
-  change 47%N with ch_slash.
-  generalize (split_on ch_slash (unq path)) as cs. intro cs.
-  generalize (@nil str) as acc.
-  induction cs as [|n cs IH]; intro acc; [reflexivity|].
+  match goal with |- ?F _ [] = _ =>
+    enough (E : forall cs acc, F cs acc = Ok (canon_segs cs acc)) by apply E end.
+  clear. induction cs as [|n cs IH]; intro acc; [reflexivity|].
   cbn [canon_segs]. rewrite <- skip_segment.
   destruct (existsb (eqb n) [lit ""; lit "."]); [apply IH|].
   change (lit "..") with dotdot.
@@ -134,10 +133,10 @@ Lemma canonical_segments_strict_tie : forall (unq : str -> str) path,
   match canon_strict (comps (unq path)) [] with Some s => Ok s | None => Err (lit "ValueError") [] end.
 Proof.
   intros. unfold gen_canonical_path_segments, comps. cbv zeta.
-  change 47%N with ch_slash.
-  generalize (split_on ch_slash (unq path)) as cs. intro cs.
-  generalize (@nil str) as acc.
-  induction cs as [|n cs IH]; intro acc; [reflexivity|].
+  match goal with |- ?F _ [] = _ =>
+    enough (E : forall cs acc, F cs acc =
+      match canon_strict cs acc with Some s => Ok s | None => Err (lit "ValueError") [] end) by apply E end.
+  clear. induction cs as [|n cs IH]; intro acc; [reflexivity|].
   cbn [canon_strict]. rewrite <- skip_segment.
   destruct (existsb (eqb n) [lit ""; lit "."]); [apply IH|].
   change (lit "..") with dotdot.
@@ -165,11 +164,11 @@ Proof. destruct p; reflexivity. Qed.
 
 Lemma get_with_redirects_tie : forall fetch fuel url max chain,
   (forall i u m, fetch i u <> Err (lit "OutOfFuel") m) ->
-  outcome_of (gen_get_with_redirects fetch fuel url max chain) = fst (follow fetch fuel max url chain).
+  outcome_of (gen_get_with_redirects fetch fuel url max chain) = fst (Redirect.follow fetch fuel max url chain).
 Proof.
   intros fetch fuel url max chain H. revert url chain.
   induction fuel as [|fuel IH]; intros url chain; [reflexivity|].
-  cbn [gen_get_with_redirects follow]. cbv zeta.
+  cbn [gen_get_with_redirects Redirect.follow]. cbv zeta.
   destruct (existsb (eqb url) chain); [reflexivity|].
   destruct (Nat.ltb max (length chain)); [reflexivity|].
   destruct (fetch (length chain) url) as [r|k m|] eqn:F; [| |reflexivity].
@@ -188,6 +187,6 @@ Lemma chain_process_tie : forall mws url ip fp, gen_chain_process mws url ip fp 
 Proof.
   intros. unfold gen_chain_process, chain_spec.
   induction mws as [|m mws IH]; cbn [find]; [reflexivity|].
-  destruct (m url ip fp) as [a r]. cbn [fst snd].
-  destruct a; cbn [negb]; [exact IH|reflexivity].
+  destruct (m url ip fp) as [a r] eqn:Em. cbn [fst].
+  destruct a; cbn [negb]; [exact IH|]. rewrite Em. reflexivity.
 Qed.
